@@ -5,6 +5,9 @@ VERIF = os.path.dirname(os.path.dirname(os.path.abspath(__file__)))
 props = {json.loads(l)["id"]: json.loads(l) for l in open(os.path.join(VERIF, "properties.jsonl"))}
 
 CHECKS = {
+ "C04": dict(cat="exploration", technique="stateful property-based testing of fork switches (generated fork depth / moment / restart / reconnect) against the reference index of the new branch; documented long-fork abort checked by catch_unwind",
+   text="Branch A is synced fully or mid-way, then all honest peers move to a heavier branch B forking below / at / above last_n; short forks must end in the goal state with the reference index of B and no record of an abandoned block, long forks must leave the store untouched until the documented panic. Exploration over fork depth x sync moment x schedule.",
+   note="Generator respects depth < check point interval (production relation interval >> last_n). Known findings D21, D22a/b, D23 tolerated by signature.", ref="6/C04"),
  "C03": dict(cat="exploration", technique="stateful property-based testing: generated chains + schedules incl. user RPC calls, real client synced against the simulated network, answers compared with an independent reference index",
    text="Generated UTXO histories (same-block chains, typed cells, prefix-sharing scripts) are synced through generated schedules interleaving fetch_transaction / fetch_header / set_scripts / restarts; after a fair drain get_cells / get_transactions / get_cells_capacity must equal the simulator's own reference index (complete for in-range activity, exact for everything in range). Exploration, not exhaustive.",
    note="Scoping S1 (don't-care before a script's start). Trusted base: honest server model and the reference index (written from the chain, shares no code with the client).", ref="6/C03"),
